@@ -109,6 +109,8 @@ Upper(t) ==     \* i;ascii-casemap folding of the text alphabet used by the case
       \* "ESCAPED": a text with characters that are backslash-escaped in the stored form (comma,
       \* semicolon, line break); "FOLDED": a text longer than one 75-octet content line.  The
       \* match is on the value, never on its serialisation.
+      \* "EMPTYVAL": the property is there, its value is the empty text (SUMMARY:) - defined, and
+      \* equal to no needle of the tables
       [] t = "ESCAPED" -> "ESCAPED-UP"
       [] t = "FOLDED" -> "FOLDED-UP"
       [] OTHER -> t
